@@ -19,9 +19,9 @@ cd $WT && git checkout -q -- . && git clean -fdq -e '*.txt' >/dev/null 2>&1
 git apply $DEST/patch.diff || { echo "patch does not apply in worktree"; exit 2; }
 BUILD=$(go build ./app/... ./action/... ./data/... ./identity/... ./storage/... ./vm/... ./event/... 2>&1 | grep -v "^#" | head -3)
 mkdir -p $(dirname $WT/$DEMO_DEST); cp $DEMO $WT/$DEMO_DEST
-WITH=$(go test -vet=off -count=1 -run "$RUN" $PKG 2>&1 | tail -3 | tr '\n' ' ')
+WITH=$(go test ${EXTRA_TEST_FLAGS:-} -vet=off -count=1 -run "$RUN" $PKG 2>&1 | tail -3 | tr '\n' ' ')
 git apply -R $DEST/patch.diff
-WITHOUT=$(go test -vet=off -count=1 -run "$RUN" $PKG 2>&1 | tail -3 | tr '\n' ' ')
+WITHOUT=$(go test ${EXTRA_TEST_FLAGS:-} -vet=off -count=1 -run "$RUN" $PKG 2>&1 | tail -3 | tr '\n' ' ')
 git apply $DEST/patch.diff; rm -f $WT/$DEMO_DEST
 # baseline of the mutated tree (the pinned suite must still pass)
 (cd $WT && go test -mod=mod -json -vet=off -count=1 -timeout 25m ./... ) > /tmp/seed_$ID.json 2>/dev/null
